@@ -113,12 +113,29 @@ def _msgs(kinds):
         m = BadMessage() if k == "bad" else Message()
         m.header.hop_by_hop_identifier = 0x0a0b0c00 + i
         m.header.command_code = 1000 + i
+        # unencodable for real, each failing with another exception type inside the library's own encoder
+        if k == "bad_attr":
+            m.append_avp(None)                       # AttributeError in Message.as_bytes
+        if k == "bad_type":
+            m.header.version = None                  # TypeError in MessageHeader.as_packed
+        if k == "bad_conv":
+            m.header.application_id = 1 << 40         # ConversionError (struct range)
         if k == "huge":
             m.append_avp(Avp(0xf0000002, 0, HUGE))
         if k == "avp":
             m.append_avp(Avp(0xf0000001, 0, bytes([0x30 + i]) * 3))
         out.append(m)
     return out
+
+
+def _enc_or_nothing(m):
+    """reference: the encoding of a message, or nothing when the library's encoder refuses it (whatever it raises)"""
+    if isinstance(m, BadMessage) or any(a is None or len(a.payload) >= (1 << 24) - 32 for a in m.avps):
+        return b""
+    try:
+        return m.as_bytes()
+    except Exception:
+        return b""
 
 
 def _compact(data):
@@ -228,7 +245,7 @@ def fifo_body(k1, sched, tgt):
                 return 0
             threads = [producer(gi) for gi in range(len(groups))] + [writer(), io()]
             coop.run_choices(threads, choose, len(sched), max_steps=1500)
-            expected = b"".join(m.as_bytes() for m in put_order if not isinstance(m, BadMessage) and not any(len(a.payload) >= (1 << 24) - 32 for a in m.avps))
+            expected = b"".join(_enc_or_nothing(m) for m in put_order)
             obs = (_compact(s.log), len(c.write_buffer), c.state, s2.log if s2 is not None else b"")
     except Exception as e:
         return hx.fail(inputs, "raised %s: %s" % (type(e).__name__, str(e)[:100]))
@@ -238,7 +255,8 @@ def fifo_body(k1, sched, tgt):
 def specs(tier, seed, carve):
     q = tier == "quick"
     out = []
-    scen = {"1x2": [["plain", "avp"]], "2x1": [["plain"], ["avp"]], "1x3bad": [["plain", "bad", "avp"]], "1x3huge": [["plain", "huge", "avp"]]}
+    scen = {"1x2": [["plain", "avp"]], "2x1": [["plain"], ["avp"]], "1x3bad": [["plain", "bad", "avp"]], "1x3huge": [["plain", "huge", "avp"]],
+            "1x3bad_attr": [["plain", "bad_attr", "avp"]], "1x3bad_type": [["plain", "bad_type", "avp"]], "1x3bad_conv": [["plain", "bad_conv", "avp"]]}
     if not q:
         scen["2x2bad"] = [["plain", "bad"], ["avp", "plain"]]
         scen["1x3"] = [["plain", "avp", "plain"]]
@@ -254,3 +272,30 @@ def specs(tier, seed, carve):
                                 bound="producers %r; first send accepts k bytes (%s) or fails with EAGAIN/EINTR/ENOBUFS; every placement of %d preemption(s) over the shared-state statements (first one in steps %d..%d) with symbolic target thread" % (
                                     groups, "k in {1, 20, 21, all}" if ks and len(ks) > 2 else ("k in {all, 21}" if ks else "every k in 1..48 / all"), slots, lo, hi - 1)))
     return out
+
+
+# ---------------------------------------------------------------------------------------------------------------------
+# wire-level histories with this property's monitor (harness/uni.py): bytes in, bytes out, reference model of the far ends
+from typing import List as _List  # noqa: E402
+from harness import uni as U  # noqa: E402
+
+
+def uni_history(ev: _List[int]) -> bool:
+    """
+    pre: len(ev) == P["depth"] and all(0 <= e < len(U.EVENTS) for e in ev)
+    pre: all(ev[i] == P["prefix"][i] for i in range(len(P["prefix"])))
+    post: _
+    """
+    return U.history_body(ev, P)
+
+
+_own_specs = specs
+
+
+def specs(tier, seed, carve):  # noqa: F811
+    return _own_specs(tier, seed, carve) + U.specs(PROPERTY, tier, seed)
+
+
+FUNCTIONS_ENCODED = list(FUNCTIONS_ENCODED) + U.FUNCTIONS
+BOUNDS = {k: v + "; " + U.BOUNDS[k] for k, v in BOUNDS.items()}
+OUTSIDE = list(OUTSIDE) + U.OUTSIDE
